@@ -298,8 +298,10 @@ func serCase(r *hx.Run, q *pb.QuoteV4, onlyCrash bool, tags ...string) {
 	if crash != "" {
 		fail = "crash: " + strings.SplitN(crash, "\n", 2)[0]
 	} else if !onlyCrash {
-		// the statement: a well-formed message survives serialise-then-parse unchanged
-		if wellFormed(q) {
+		// the statement: a well-formed message survives serialise-then-parse unchanged, where the structural part of
+		// "well-formed" is the library's own predicate shared by both directions (CheckQuoteV4) and the size fields
+		// it does not look at are consistent with the actual lengths (observation O-1)
+		if chkErr == nil && sizesConsistent(q) {
 			if serErr != nil {
 				fail = "well-formed message not serialised: " + serErr.Error()
 			} else if back, e := safeParse(out); e != nil {
@@ -318,6 +320,16 @@ func serCase(r *hx.Run, q *pb.QuoteV4, onlyCrash bool, tags ...string) {
 	}
 	line := "C09.ser " + msgTokens(q)
 	r.Emit(line, obs, fail, fmt.Sprint(hx.Fnv1a([]byte(line))), chkErr == nil, append(tags, "ser:"+strings.SplitN(ser, " ", 2)[0])...)
+}
+
+// sizesConsistent: the two size fields CheckQuoteV4 does not relate to the actual lengths
+func sizesConsistent(q *pb.QuoteV4) bool {
+	qc := q.GetSignedData().GetCertificationData().GetQeReportCertificationData()
+	if qc == nil || qc.QeAuthData == nil || qc.PckCertificateChainData == nil {
+		return false
+	}
+	n := 384 + 64 + 2 + len(qc.QeAuthData.Data) + 6 + len(qc.PckCertificateChainData.PckCertChain)
+	return int(q.SignedData.CertificationData.Size) == n && int(q.SignedDataSize) == 134+n
 }
 
 // wellFormed: the independent reading of "well-formed quote message": every field has its layout
